@@ -15,6 +15,8 @@ type modTarget struct {
 	sort string
 	ref  Term
 	all  bool // every reference of this key
+	path []PathEl
+	leaf types.Type
 }
 
 func shortFuncName(fn *ssa.Function) string {
@@ -329,6 +331,12 @@ func (x *Exec) applyContract(fr *frame, st *State, fc *FuncContract, sig *types.
 				continue
 			}
 			_, vs := arraySorts(t.sort)
+			if len(t.path) > 0 {
+				nv := vc.freshConst("hc", vc.sortOf(t.leaf))
+				vc.assume(st.pc, vc.wf(st, nv, t.leaf, 0))
+				st.heap[t.key] = vc.bind("H", Store(h, t.ref, vc.update(Select(h, t.ref), t.path, nv)))
+				continue
+			}
 			nv := vc.freshConst("hc", vs)
 			st.heap[t.key] = vc.bind("H", Store(h, t.ref, nv))
 		}
@@ -421,6 +429,14 @@ func (x *Exec) designator(e Expr, env *SpecEnv) ([]modTarget, error) {
 	case *ESel:
 		if t.Name == "$all" {
 			break
+		}
+		if l, err := x.evalLoc(t, env); err == nil && l.Kind == LField {
+			lt := vc.locType(l)
+			if at, isArr := lt.Underlying().(*types.Array); isArr && len(l.Path) == 0 {
+				_ = at
+			} else {
+				return []modTarget{{key: l.Key, sort: vc.heapSortOf(l), ref: l.Ref, path: l.Path, leaf: lt}}, nil
+			}
 		}
 		xv, err := x.evalSpec(t.X, env)
 		if err != nil {
